@@ -41,6 +41,17 @@ func (n *ANode) prec() int {
 // asked, for every subtree, whether redundant parentheses are to be added.
 func (n *ANode) Tokens(extra func() bool) []string {
 	var out []string
+	// target renders the operand of an assignment or of ++ / --: in C a
+	// parenthesised variable designates the variable
+	target := func(s string) []string {
+		if extra != nil && isIdent(s) && extra() && extra() {
+			if extra() {
+				return []string{"(", "(", s, ")", ")"}
+			}
+			return []string{"(", s, ")"}
+		}
+		return []string{s}
+	}
 	var rec func(n *ANode, min int)
 	rec = func(n *ANode, min int) {
 		paren := n.prec() < min || (extra != nil && n.Kind != "num" && n.Kind != "var" && extra())
@@ -57,13 +68,13 @@ func (n *ANode) Tokens(extra func() bool) []string {
 			out = append(out, n.Op)
 			rec(n.A, 13)
 		case "preinc":
-			out = append(out, "++", n.S)
+			out = append(append(out, "++"), target(n.S)...)
 		case "predec":
-			out = append(out, "--", n.S)
+			out = append(append(out, "--"), target(n.S)...)
 		case "postinc":
-			out = append(out, n.S, "++")
+			out = append(append(out, target(n.S)...), "++")
 		case "postdec":
-			out = append(out, n.S, "--")
+			out = append(append(out, target(n.S)...), "--")
 		case "bin":
 			p := binPrec[n.Op]
 			rec(n.A, p)
@@ -76,7 +87,7 @@ func (n *ANode) Tokens(extra func() bool) []string {
 			out = append(out, ":")
 			rec(n.C, 2)
 		case "asg":
-			out = append(out, n.S, n.Op)
+			out = append(append(out, target(n.S)...), n.Op)
 			rec(n.A, 1)
 		}
 		if paren {
@@ -85,6 +96,16 @@ func (n *ANode) Tokens(extra func() bool) []string {
 	}
 	rec(n, 0)
 	return out
+}
+
+func isIdent(s string) bool {
+	for i := 0; i < len(s); i++ {
+		c := s[i]
+		if !(c == '_' || c >= 'a' && c <= 'z' || c >= 'A' && c <= 'Z' || i > 0 && c >= '0' && c <= '9') {
+			return false
+		}
+	}
+	return s != ""
 }
 
 var arithOps = []string{"<<=", ">>=", "++", "--", "<<", ">>", "<=", ">=", "==", "!=", "&&", "||", "*=", "/=", "%=", "+=", "-=", "&=", "^=", "|=",
